@@ -25,8 +25,8 @@ type Term struct {
 type Store struct {
 	tab   map[string]*Term
 	next  int
-	Vars  []*Term            // declared variables in creation order
-	UFs   map[string][]int   // uf name -> arg widths + result width (last)
+	Vars  []*Term          // declared variables in creation order
+	UFs   map[string][]int // uf name -> arg widths + result width (last)
 	UFOrd []string
 }
 
